@@ -135,6 +135,21 @@ theorem sim_end_once_each (D : List SDecl) (hv : Valid D) (hn : NamesValid D) :
     ∀ m ∈ (buildAll D).1.mods, (endCalls (buildAll D).1.mods).count m = 1 :=
   ⟨(buildAll_ok D hv hn).2, fun _ hm => by rw [endCalls, (built_vector_nodup D hv hn).count, if_pos hm]⟩
 
+/-- **Tear-down does not stop at an error.**  Whatever the `at_sim_end` callbacks return (`fails m` =
+    number of errors module `m` reports), every module of the built simulation is ended (the call
+    sequence `endCalls` does not depend on the results), every error of every module is reported
+    exactly once, module by module in pre-order, and the run fails iff some module reported one. -/
+theorem sim_end_errors_all_reported (D : List SDecl) (hv : Valid D) (hn : NamesValid D)
+    (fails : Mod → Nat) :
+    (∀ m ∈ (buildAll D).1.mods, ∀ i,
+        (endErrors fails (endCalls (buildAll D).1.mods)).count (m, i) = if i < fails m then 1 else 0) ∧
+    (endErrors fails (endCalls (buildAll D).1.mods)).map (·.1)
+        = (buildAll D).1.mods.flatMap (fun m => List.replicate (fails m) m) ∧
+    (endOk fails (endCalls (buildAll D).1.mods) = true ↔ ∀ m ∈ (buildAll D).1.mods, fails m = 0) := by
+  refine ⟨?_, endErrors_modules fails _, endOk_iff fails _⟩
+  intro m hm i
+  rw [endCalls, count_endErrors, (built_vector_nodup D hv hn).count, if_pos hm]
+
 /-! ## builder checks -/
 
 /-- **A duplicate path is rejected** (and the builder is left unchanged). -/
@@ -439,5 +454,9 @@ example : NamesValid exScript ∧ (declareAll [] exScript).2 = [.ok, .dup, .noPa
     ∧ (runScript {} exScript).1.mods.map (·.path.data) = [[97], [97, 46, 97, 108], [97, 46, 97, 108, 46, 98]] := by
   decide
 example : teardown (buildAll exD).1 = [0, 2, 4, 1, 3] := by decide
+/-- failing tear-down callbacks in the middle of the tree: `a.al` reports 2 errors, `b` 1 -/
+example : ((endErrors (fun m => if m.path.data = [97, 46, 97, 108] then 2 else if m.path.data = [98] then 1 else 0)
+    (endCalls (buildAll exD).1.mods)).map (fun e => (e.1.path.data, e.2)))
+    = [([97, 46, 97, 108], 0), ([97, 46, 97, 108], 1), ([98], 0)] := by decide
 
 end C12
